@@ -801,6 +801,7 @@ func (c *Client) Call(ctx context.Context, procedure string, options wamp.Dict, 
 
 	err := c.prepareCallPayloadMessage(message, options, args, kwargs)
 	if err != nil {
+		c.abandonCall(id, progChan, progDone)
 		return nil, err
 	}
 
@@ -899,6 +900,7 @@ func (c *Client) CallProgressive(ctx context.Context, procedure string, sendProg
 
 	err = c.prepareCallPayloadMessage(message, options, args, kwargs)
 	if err != nil {
+		c.abandonCall(id, progChan, progDone)
 		return nil, err
 	}
 
@@ -984,6 +986,19 @@ func (c *Client) CallProgressive(ctx context.Context, procedure string, sendProg
 		return nil, RPCError{msg, procedure}
 	default:
 		return nil, unexpectedMsgError(msg, wamp.RESULT)
+	}
+}
+
+// abandonCall releases what Call and CallProgressive set up for a call that
+// is given up before it was sent: the awaiting-reply entry and the goroutine
+// that delivers progressive results.
+func (c *Client) abandonCall(id wamp.ID, progChan chan *wamp.Result, progDone chan struct{}) {
+	c.sess.Lock()
+	delete(c.awaitingReply, id)
+	c.sess.Unlock()
+	if progChan != nil {
+		close(progChan)
+		<-progDone
 	}
 }
 
